@@ -82,6 +82,16 @@ Theorem C17_file_acceptance : forall es, file_quantifier es = true -> exists cs,
 Proof. exact file_acceptance. Qed.
 Print Assumptions C17_file_acceptance.
 
+(* THE FULL STATEMENT FOR SOURCE FILES WITH SEVERAL DECLARATIONS ("each entity declaration yields ..."):
+   every declaration of an admissible file yields its own components - the file compiles to their
+   concatenation, in declaration order - and each part satisfies every clause of the specification for
+   its declaration *)
+Theorem C17_file_full_modulo_reserved : forall es, file_quantifier es = true ->
+  exists l, compile_file es = Ok (concat l)
+            /\ Forall2 (fun e cs => compile e = Ok cs /\ C17_spec e cs) es l.
+Proof. exact file_full_modulo_reserved. Qed.
+Print Assumptions C17_file_full_modulo_reserved.
+
 Theorem C17_acceptance : forall e, in_quantifier e = true -> reserved_free e = true -> exists cs, compile e = Ok cs.
 Proof. exact acceptance. Qed.
 Print Assumptions C17_acceptance.
@@ -163,17 +173,19 @@ Theorem C17_closed_scalars : forall e fl,
 Proof. exact expand_closed_scalars. Qed.
 Print Assumptions C17_closed_scalars.
 
-(* fields_ok: no user-declared field is both optional and required/primary (buildProperty);
+(* trees_ok: the references inside tree-form inline schemas (inline schemas nested in inline schemas) resolve;
+   fields_ok: no user-declared field is both optional and required/primary (buildProperty);
    *_params_ok: every ":name" part of a method path is a request field (visitServiceMethodNode) *)
 Example C17_compile_is_expand : forall e,
   list_settings e = false ->
   (forall fl, user_refs_ok e (defined (expand_with e fl)) = true) ->
+  (forall fl, trees_ok e (defined (expand_with e fl)) = true) ->
   fields_ok e = true -> query_params_ok e = true -> command_params_ok e = true -> convert e = expand e.
 Proof. exact compile_expand. Qed.
 Print Assumptions C17_compile_is_expand.
 
 Example C17_compile_errors : forall e cs, expand e = Ok cs -> list_settings e = false ->
-  convert e = if user_refs_ok e (defined cs) then
+  convert e = if user_refs_ok e (defined cs) && trees_ok e (defined cs) then
                 if fields_ok e then
                   if query_params_ok e && command_params_ok e then Ok cs
                   else Err "missing field in request"
@@ -603,3 +615,47 @@ Proof.
   split; [eexists; split; [vm_compute; reflexivity|reflexivity]|].
   repeat split; try (vm_compute; reflexivity). repeat constructor.
 Qed.
+
+(* non-vacuity of the file theorems: the sample above and a second declaration of the same package *)
+Definition C17_sample2 : entity :=
+  mkE (bs "foo.v1") (bs "bar_item") []
+      [mkK (mkU (bs "barId") (KKey true None None) false false) false]
+      [mkU (bs "status") (KScalar 9 (bs "string")) false false]
+      [bs "NEW"] [mkEv (bs "Made") []] [] [] None [].
+Example C17_file_example :
+  file_quantifier [C17_sample; C17_sample2] = true
+  /\ exists l, compile_file [C17_sample; C17_sample2] = Ok (concat l) /\ map (@length component) l = [24; 15]%nat.
+Proof.
+  split; [vm_compute; reflexivity|].
+  exists [expand_with C17_sample [bs "FOO_S_STATUS_ACTIVE"]; expand_with C17_sample2 []].
+  split; vm_compute; reflexivity.
+Qed.
+
+(* non-vacuity of C17_convert_list_settings: a declaration with list-request settings (outside the
+   quantifier) is rejected by the conversion with the list-request error *)
+Definition C17_list_sample : entity :=
+  mkE (bs "foo.v1") (bs "Foo") [] [mkK (mkU (bs "fooId") (KKey true None None) false false) false]
+      [] [bs "ACTIVE"] [] [] [] (Some (mkQ false [] true)) [].
+Example C17_list_settings_example :
+  list_settings C17_list_sample = true /\ in_quantifier C17_list_sample = false
+  /\ convert C17_list_sample = Err "listRequest is not supported on a method".
+Proof. repeat split; vm_compute; reflexivity. Qed.
+
+(* non-vacuity of the acceptance theorems for inline schemas nested in inline schemas: an inline object
+   holding an ARRAY of inline objects (with a map inside) and an inline oneof is inside the quantifier,
+   free of reserved names, and compiles *)
+Definition C17_nested_sample : entity :=
+  mkE (bs "foo.v1") (bs "Foo") [] [mkK (mkU (bs "fooId") (KKey true None None) false false) false]
+    [mkU (bs "outer")
+         (KInlineTree 0
+            [TF (bs "inner") (TKInline 0 1 [TF (bs "leaf") (TK (IScalar 9 (bs "string"))) false false [];
+                                            TF (bs "tags") (TKMap (IScalar 9 (bs "string"))) false false []] [])
+                false false [];
+             TF (bs "pick") (TKInline 1 0 [TF (bs "a") (TK (IScalar 9 (bs "string"))) false false []] []) false false [];
+             TF (bs "level") (TKInline 2 0 [] [bs "LOW"; bs "HIGH"]) false false []])
+         false false]
+    [bs "ACTIVE"] [] [] [] None [].
+Example C17_nested_example :
+  in_quantifier C17_nested_sample = true /\ reserved_free C17_nested_sample = true
+  /\ exists cs, compile C17_nested_sample = Ok cs /\ length cs = 15%nat.
+Proof. split; [vm_compute; reflexivity|]. split; [vm_compute; reflexivity|]. eexists. split; [vm_compute; reflexivity|reflexivity]. Qed.
